@@ -361,6 +361,142 @@ jcam = strip_comments(rd("jcapimin.c"))
 if not re.search(r"if \(cinfo->next_scanline < cinfo->image_height\)\s*ERREXIT\(cinfo, JERR_TOO_LITTLE_DATA\);", jcam):
     die("jcapimin.c: jpeg_finish_compress too-little-data test not found")
 
+
+# ---------------------------------------------------------------- J_COLOR_SPACE, jpeg_set_colorspace, jpeg_default_colorspace
+m = re.search(r"typedef enum \{(.*?)\} J_COLOR_SPACE;", jpeglib, re.S)
+if not m:
+    die("jpeglib.h: J_COLOR_SPACE not found")
+jcs = {}
+for i, item in enumerate([x.strip() for x in m.group(1).split(",") if x.strip()]):
+    mm = re.fullmatch(r"(JCS_\w+)", item)
+    if not mm:
+        die("jpeglib.h: cannot parse J_COLOR_SPACE enumerator %r" % item)
+    jcs[mm.group(1)] = i
+m = re.search(r"jpeg_set_colorspace\(j_compress_ptr cinfo, J_COLOR_SPACE colorspace\)\s*\{(.*?)\n\}", jcp, re.S)
+if not m:
+    die("jcparam.c: jpeg_set_colorspace not found")
+scs = m.group(1)
+if not re.search(r"cinfo->jpeg_color_space = colorspace;\s*cinfo->write_JFIF_header = FALSE;\s*cinfo->write_Adobe_marker = FALSE;\s*switch \(colorspace\) \{", scs):
+    die("jcparam.c: jpeg_set_colorspace prologue changed")
+cs_rows = []
+blocks = re.findall(r"case (JCS_\w+):(.*?)break;", scs, re.S)
+seen_unknown = False
+for name, body in blocks:
+    stmts = [x.strip() for x in body.split(";") if x.strip()]
+    jfif = adobe = 0; ncomp = None; comps = []
+    if name == "JCS_UNKNOWN":
+        if not re.search(r"cinfo->num_components = cinfo->input_components;\s*if \(cinfo->num_components < 1 \|\| cinfo->num_components > MAX_COMPONENTS\)\s*"
+                         r"ERREXIT2\(cinfo, JERR_COMPONENT_COUNT, cinfo->num_components,\s*MAX_COMPONENTS\);\s*for \(ci = 0; ci < cinfo->num_components; ci\+\+\) \{\s*"
+                         r"SET_COMP\(ci, ci, 1, 1, 0, 0, 0\);\s*\}", body):
+            die("jcparam.c: JCS_UNKNOWN case of jpeg_set_colorspace changed")
+        seen_unknown = True
+        continue
+    for st in stmts:
+        st = re.sub(r"\s+", " ", st).replace(" ,", ",")
+        if st == "cinfo->write_JFIF_header = TRUE":
+            jfif = 1
+        elif st == "cinfo->write_Adobe_marker = TRUE":
+            adobe = 1
+        elif re.fullmatch(r"cinfo->num_components = (\d+)", st):
+            ncomp = int(st.split("=")[1])
+        elif re.fullmatch(r"SET_COMP\((\d+), (0x[0-9A-Fa-f]+|\d+), (\d+), (\d+), (\d+), (\d+), (\d+)\)", st):
+            a = re.fullmatch(r"SET_COMP\((\d+), (0x[0-9A-Fa-f]+|\d+), (\d+), (\d+), (\d+), (\d+), (\d+)\)", st).groups()
+            if int(a[0]) != len(comps):
+                die("jcparam.c: SET_COMP indexes of %s are not consecutive" % name)
+            comps.append((int(a[1], 0),) + tuple(int(x) for x in a[2:]))
+        else:
+            die("jcparam.c: unexpected statement in case %s of jpeg_set_colorspace: %r" % (name, st))
+    if ncomp != len(comps):
+        die("jcparam.c: num_components of %s does not match its SET_COMP list" % name)
+    cs_rows.append((jcs[name], jfif, adobe, comps))
+if not seen_unknown or not re.search(r"default:\s*ERREXIT\(cinfo, JERR_BAD_J_COLORSPACE\);", scs):
+    die("jcparam.c: jpeg_set_colorspace JCS_UNKNOWN / default cases not found")
+m = re.search(r"jpeg_default_colorspace\(j_compress_ptr cinfo\)\s*\{\s*switch \(cinfo->in_color_space\) \{(.*?)default:\s*ERREXIT\(cinfo, JERR_BAD_IN_COLORSPACE\);", jcp, re.S)
+if not m:
+    die("jcparam.c: jpeg_default_colorspace not found")
+dflt_rows = []
+for labels, body in re.findall(r"((?:case JCS_\w+:\s*)+)(.*?)break;", m.group(1), re.S):
+    body = re.sub(r"#ifdef C_LOSSLESS_SUPPORTED|#endif", "", body)
+    body = re.sub(r"\s+", " ", body).strip()
+    mm = re.fullmatch(r"jpeg_set_colorspace\(cinfo, (JCS_\w+)\);", body)
+    m2 = re.fullmatch(r"if \(cinfo->master->lossless\) jpeg_set_colorspace\(cinfo, (JCS_\w+)\); else jpeg_set_colorspace\(cinfo, (JCS_\w+)\);", body)
+    if mm:
+        lossy = lossl = jcs[mm.group(1)]
+    elif m2:
+        lossl, lossy = jcs[m2.group(1)], jcs[m2.group(2)]
+    else:
+        die("jcparam.c: cannot interpret a case of jpeg_default_colorspace: %r" % body)
+    for lab in re.findall(r"JCS_\w+", labels):
+        dflt_rows.append((jcs[lab], lossy, lossl))
+m = re.search(r"if \(quality <= 0\) quality = 1;\s*if \(quality > 100\) quality = 100;\s*if \(quality < 50\)\s*quality = (\d+) / quality;\s*else\s*quality = (\d+) - quality \* (\d+);", jcp)
+if not m:
+    die("jcparam.c: jpeg_quality_scaling not found")
+consts["QS_NUM"], consts["QS_BASE"], consts["QS_MUL"] = int(m.group(1)), int(m.group(2)), int(m.group(3))
+for pat, what in [(r"jpeg_set_linear_quality\(j_compress_ptr cinfo, int scale_factor,\s*boolean force_baseline\)\s*\{\s*jpeg_add_quant_table\(cinfo, 0, std_luminance_quant_tbl,\s*scale_factor, force_baseline\);\s*"
+                   r"jpeg_add_quant_table\(cinfo, 1, std_chrominance_quant_tbl,\s*scale_factor, force_baseline\);", "jpeg_set_linear_quality"),
+                  (r"quality = jpeg_quality_scaling\(quality\);\s*jpeg_set_linear_quality\(cinfo, quality, force_baseline\);", "jpeg_set_quality"),
+                  (r"temp = \(\(long\)basic_table\[i\] \* scale_factor \+ 50L\) / 100L;", "jpeg_add_quant_table scaling"),
+                  (r"jpeg_set_quality\(cinfo, 75, TRUE\);\s*std_huff_tables\(\(j_common_ptr\)cinfo\);", "jpeg_set_defaults tables")]:
+    if not re.search(pat, jcp):
+        die("jcparam.c: %s no longer has the modelled form" % what)
+# ---------------------------------------------------------------- jcinit.c: module selection
+jci = strip_comments(rd("jcinit.c"))
+for pat, what in [(r"jinit_c_master_control\(cinfo, FALSE\s*\);\s*if \(!cinfo->raw_data_in\) \{\s*if \(cinfo->data_precision <= 8\) \{\s*jinit_color_converter\(cinfo\);\s*jinit_downsampler\(cinfo\);\s*jinit_c_prep_controller\(cinfo, FALSE\s*\);", "preprocessing selection"),
+                  (r"if \(cinfo->master->lossless\) \{\s*#ifdef C_LOSSLESS_SUPPORTED\s*if \(cinfo->data_precision <= 8\)\s*jinit_lossless_compressor\(cinfo\);", "lossless compressor selection"),
+                  (r"if \(cinfo->arith_code\) \{\s*ERREXIT\(cinfo, JERR_ARITH_NOTIMPL\);\s*\} else \{\s*jinit_lhuff_encoder\(cinfo\);\s*\}", "lossless entropy selection"),
+                  (r"if \(cinfo->data_precision == 8\)\s*jinit_forward_dct\(cinfo\);\s*else if \(cinfo->data_precision == 12\)\s*j12init_forward_dct\(cinfo\);\s*else\s*ERREXIT1\(cinfo, JERR_BAD_PRECISION, cinfo->data_precision\);", "forward DCT selection"),
+                  (r"if \(cinfo->arith_code\) \{\s*#ifdef C_ARITH_CODING_SUPPORTED\s*jinit_arith_encoder\(cinfo\);\s*#else\s*ERREXIT\(cinfo, JERR_ARITH_NOTIMPL\);\s*#endif\s*\} else \{\s*if \(cinfo->progressive_mode\) \{\s*#ifdef C_PROGRESSIVE_SUPPORTED\s*jinit_phuff_encoder\(cinfo\);", "lossy entropy selection"),
+                  (r"\} else\s*jinit_huff_encoder\(cinfo\);", "sequential Huffman selection"),
+                  (r"jinit_c_coef_controller\(cinfo, \(boolean\)\(cinfo->num_scans > 1 \|\|\s*cinfo->optimize_coding\)\);", "coefficient buffer mode"),
+                  (r"jinit_marker_writer\(cinfo\);\s*\(\*cinfo->mem->realize_virt_arrays\) \(\(j_common_ptr\)cinfo\);\s*\(\*cinfo->marker->write_file_header\) \(cinfo\);", "marker writer / file header")]:
+    if not re.search(pat, jci):
+        die("jcinit.c: %s no longer has the modelled form" % what)
+# ---------------------------------------------------------------- TurboJPEG: tables and checks of tj3Compress*
+def tj_array(src, name, fname):
+    mm = re.search(r"%s\[[^\]]*\]\s*=\s*\{([^}]*)\}" % name, src)
+    if not mm:
+        die("%s: %s not found" % (fname, name))
+    return [x.strip() for x in mm.group(1).replace("\n", " ").split(",") if x.strip()]
+tjh = rd("turbojpeg.h")
+tjc = strip_comments(rd("turbojpeg.c"))
+tjh2 = strip_comments(tjh)
+consts["TJ_NUMSAMP"] = ev(define(tjh2, "TJ_NUMSAMP", "turbojpeg.h"), "TJ_NUMSAMP")
+tj_pixsize = [int(x) for x in tj_array(tjh2, "tjPixelSize", "turbojpeg.h")]
+tj_mcuw = [int(x) for x in tj_array(tjh2, "tjMCUWidth", "turbojpeg.h")]
+tj_mcuh = [int(x) for x in tj_array(tjh2, "tjMCUHeight", "turbojpeg.h")]
+tj_pf2cs = [jcs[x] for x in tj_array(tjc, "pf2cs", "turbojpeg.c")]
+consts["TJ_NUMPF"] = ev(define(tjh2, "TJ_NUMPF", "turbojpeg.h"), "TJ_NUMPF")
+if not (len(tj_pixsize) == len(tj_pf2cs) == consts["TJ_NUMPF"] and len(tj_mcuw) == len(tj_mcuh) == consts["TJ_NUMSAMP"]):
+    die("turbojpeg: table sizes inconsistent")
+tjmp = strip_comments(rd("turbojpeg-mp.c"))
+for pat, what in [(r"if \(srcBuf == NULL \|\| width <= 0 \|\| pitch < 0 \|\| height <= 0 \|\|\s*pixelFormat < 0 \|\| pixelFormat >= TJ_NUMPF \|\| jpegBuf == NULL \|\|\s*jpegSize == NULL\)\s*THROW\(\"Invalid argument\"\);", "argument check"),
+                  (r"if \(!this->lossless && this->quality == -1\)\s*THROW\(\"TJPARAM_QUALITY must be specified\"\);\s*if \(!this->lossless && this->subsamp == TJSAMP_UNKNOWN\)\s*THROW\(\"TJPARAM_SUBSAMP must be specified\"\);", "quality / subsamp check"),
+                  (r"cinfo->data_precision = BITS_IN_JSAMPLE;\s*#if BITS_IN_JSAMPLE == 8\s*if \(this->lossless && this->precision >= 2 &&\s*this->precision <= BITS_IN_JSAMPLE\)\s*#else\s*if \(this->lossless && this->precision >= BITS_IN_JSAMPLE - 3 &&\s*this->precision <= BITS_IN_JSAMPLE\)\s*#endif\s*cinfo->data_precision = this->precision;", "precision selection"),
+                  (r"setCompDefaults\(this, pixelFormat\);", "setCompDefaults call")]:
+    if not re.search(pat, tjmp):
+        die("turbojpeg-mp.c: tj3Compress %s no longer has the modelled form" % what)
+for pat, what in [(r"if \(this->lossless\) \{\s*#ifdef C_LOSSLESS_SUPPORTED\s*jpeg_enable_lossless\(&this->cinfo, this->losslessPSV, this->losslessPt\);\s*#endif", "lossless branch"),
+                  (r"this->cinfo\.comp_info\[0\]\.h_samp_factor = tjMCUWidth\[subsamp\] / 8;\s*this->cinfo\.comp_info\[1\]\.h_samp_factor = 1;\s*this->cinfo\.comp_info\[2\]\.h_samp_factor = 1;\s*if \(this->cinfo\.num_components > 3\)\s*this->cinfo\.comp_info\[3\]\.h_samp_factor = tjMCUWidth\[subsamp\] / 8;", "sampling factors"),
+                  (r"if \(this->cinfo\.data_precision == 8\)\s*this->cinfo\.optimize_coding = this->optimize;", "optimize rule"),
+                  (r"default:\s*if \(subsamp == TJSAMP_GRAY\)\s*jpeg_set_colorspace\(&this->cinfo, JCS_GRAYSCALE\);\s*else if \(pixelFormat == TJPF_CMYK\)\s*jpeg_set_colorspace\(&this->cinfo, JCS_YCCK\);\s*else\s*jpeg_set_colorspace\(&this->cinfo, JCS_YCbCr\);", "default colourspace rule")]:
+    if not re.search(pat, tjc):
+        die("turbojpeg.c: setCompDefaults %s no longer has the modelled form" % what)
+tjcs = []
+for nm in ["TJCS_RGB", "TJCS_YCbCr", "TJCS_GRAY", "TJCS_CMYK", "TJCS_YCCK"]:
+    mm = re.search(r"case %s:\s*jpeg_set_colorspace\(&this->cinfo, (JCS_\w+)\);" % nm, tjc)
+    if not mm:
+        die("turbojpeg.c: setCompDefaults case %s not found" % nm)
+    tjcs.append(jcs[mm.group(1)])
+mm = re.search(r"enum TJCS \{(.*?)\};", tjh2, re.S)
+if not mm or [x.strip() for x in mm.group(1).split(",") if x.strip()] != ["TJCS_RGB", "TJCS_YCbCr", "TJCS_GRAY", "TJCS_CMYK", "TJCS_YCCK"]:
+    die("turbojpeg.h: enum TJCS changed")
+mm = re.search(r"enum TJSAMP \{(.*?)\};", tjh2, re.S)
+if not mm:
+    die("turbojpeg.h: enum TJSAMP not found")
+tjsamp = [x.strip() for x in mm.group(1).split(",") if x.strip()]
+if tjsamp[3] != "TJSAMP_GRAY" or not tjsamp[-1].replace(" ", "").startswith("TJSAMP_UNKNOWN=-1"):
+    die("turbojpeg.h: TJSAMP_GRAY / TJSAMP_UNKNOWN changed")
+
 # ---------------------------------------------------------------- jcdctmgr.c (F3 fix)
 jcd = strip_comments(rd("jcdctmgr.c"))
 m = re.search(r"#define CLAMP_DIVISOR\(d\)\s+\(\(d\) > (\d+) \? \(UINT16\)(\d+) : \(UINT16\)\(d\)\)", jcd)
@@ -478,7 +614,7 @@ for k in ["DCTSIZE", "DCTSIZE2", "MAX_COMPONENTS", "MAX_COMPS_IN_SCAN", "C_MAX_B
           "MAX_COEF_BITS_ADD", "DC_EXTRA_BITS", "AHAL_PREC", "MAX_AH_AL_HI", "MAX_AH_AL_LO", "LOSSLESS_PREC_MIN", "LOSSLESS_PREC_MAX",
           "LOSSY_PREC_A", "LOSSY_PREC_B", "RESTART_MAX", "PSV_MIN", "PSV_MAX", "QUANT_MIN", "QUANT_MAX", "QUANT_BASELINE_MAX",
           "QUALITY_MIN", "QUALITY_MAX", "SP_YCC_NCOMPS", "SP_YCC_NSCANS", "SP_BIG_MUL", "SP_ADD", "SP_MUL", "SP_SIZE_RULE",
-          "SP_ALLOC_GUARD", "SP_MIN_SLOTS", "DRI_RULE", "RAW_ADVANCE", "MARKER_MAX_DATA", "DQT_INDEX_CHECK", "HUFF_TBLNO_CHECK_FIRST", "DIVISOR_CLAMP", "DIVISOR_CLAMPED_EVERYWHERE", "ZERO_QUANT_REJECTED",
+          "SP_ALLOC_GUARD", "SP_MIN_SLOTS", "DRI_RULE", "RAW_ADVANCE", "QS_NUM", "QS_BASE", "QS_MUL", "TJ_NUMPF", "MARKER_MAX_DATA", "DQT_INDEX_CHECK", "HUFF_TBLNO_CHECK_FIRST", "DIVISOR_CLAMP", "DIVISOR_CLAMPED_EVERYWHERE", "ZERO_QUANT_REJECTED",
           "NCOMP_CHECK_IN_VALIDATE", "REVALIDATE_AFTER_LOSSLESS", "MISSING_CODE_CHECK", "MISSING_ZRL_EOB_CHECK", "SIMD_RANGE_PRECHECK", "RESTART_CLAMP_DIRECT", "TJ_NUMSAMP", "TJ_NUMCS"]:
     out.append("Definition g_%s : Z := %d." % (k, consts[k]))
 out.append("\n(* zigzag order of encode_one_block: position 0 and the 63 kloop() arguments *)")
@@ -488,6 +624,15 @@ for nm in sorted(mcodes):
 for nm, l in (("g_std_luminance_quant_tbl", std_lum_q), ("g_std_dc_bits", std_dc_bits), ("g_std_dc_vals", std_dc_vals),
               ("g_std_ac_bits", std_ac_bits), ("g_std_ac_vals", std_ac_vals), ("g_std_chrominance_quant_tbl", std_chr_q),
               ("g_std_dcc_bits", std_dcc_bits), ("g_std_dcc_vals", std_dcc_vals), ("g_std_acc_bits", std_acc_bits), ("g_std_acc_vals", std_acc_vals)):
+    out.append("Definition %s : list Z :=\n  [%s]." % (nm, "; ".join(map(str, l))))
+for nm in sorted(jcs):
+    out.append("Definition g_%s : Z := %d." % (nm, jcs[nm]))
+out.append("(* jpeg_set_colorspace: (colorspace, write_JFIF_header, write_Adobe_marker, [(id, h, v, Tq, Td, Ta)]) *)")
+out.append("Definition g_colorspaces : list (Z * Z * Z * list (Z * Z * Z * Z * Z * Z)) :=\n  [%s]." % ";\n   ".join(
+    "(%d, %d, %d, [%s])" % (c, j, a, "; ".join("(%d, %d, %d, %d, %d, %d)" % t for t in comps)) for c, j, a, comps in cs_rows))
+out.append("(* jpeg_default_colorspace: (in_color_space, jpeg colour space, jpeg colour space in lossless mode) *)")
+out.append("Definition g_default_colorspace : list (Z * Z * Z) :=\n  [%s]." % "; ".join("(%d, %d, %d)" % t for t in dflt_rows))
+for nm, l in (("g_tjPixelSize", tj_pixsize), ("g_tjMCUWidth", tj_mcuw), ("g_tjMCUHeight", tj_mcuh), ("g_tj_pf2cs", tj_pf2cs), ("g_tjcs2jcs", tjcs)):
     out.append("Definition %s : list Z :=\n  [%s]." % (nm, "; ".join(map(str, l))))
 out.append("\n(* jpeg_simple_progression: the two scripts as calls (kind, a, b, c, d, e): 0 fill_dc_scans(Ah, Al), 1 fill_a_scan(ci, Ss, Se, Ah, Al), 2 fill_scans(Ss, Se, Ah, Al) *)")
 for nm, l in (("g_sp_ycc", sp_ycc), ("g_sp_gen", sp_gen)):
